@@ -28,7 +28,8 @@ def report_key(out):
     kind = m.group(1) if m else None
     if not kind:
         m = re.search(r"runtime error: ([^\n]{0,80})", out)
-        kind = "ubsan:" + re.sub(r"[^A-Za-z ]", "", m.group(1)).strip().replace(" ", "-")[:40] if m else "sanitizer"
+        # (addresses and values are not part of the identity of a report)
+        kind = "ubsan:" + re.sub(r"[^A-Za-z ]", "", re.sub(r"0x[0-9a-fA-F]+|\d+", "", m.group(1))).strip().replace(" ", "-")[:40] if m else "sanitizer"
     fr = re.findall(r"#\d+ 0x[0-9a-f]+ in ([\w:~<>]+)", out)
     fr = [f for f in fr if not f.startswith(("__", "operator", "std::", "malloc", "free", "vh::"))]
     m2 = re.search(r"(\w+\.(?:cc|cpp|h)):\d+", out[out.find("runtime error") - 200:out.find("runtime error")]) if "runtime error" in out else None
@@ -153,20 +154,22 @@ def run(tier, replay):
         f_ = os.path.join(wd, "ix%d.ndjson" % i)
         if os.path.exists(f_):
             ixl += [l_ for l_ in open(f_).read().splitlines() if l_.strip()]
-    if not ixl:
+    if not ixl and not ck.violations:
+        # (a generation harness that died under a sanitizer report writes no subscript summary: the report above is the finding)
         raise vlib.InfraError("no table subscript was noted by the library (hook in divdif.cc missing?)")
-    ixf = os.path.join(wd, "ix_all.ndjson")
-    open(ixf, "w").write("\n".join(ixl) + "\n")
-    ri = vlib.tlc("Index", "Index.cfg", workers=1, env={"TRACE": ixf}, timeout=300)
-    if ri.error:
-        raise vlib.InfraError("Index: " + ri.error)
-    ck.tlc_stats(ri, "Index(noted table subscripts)")
-    ck.set("table_subscripts_noted", sum(json.loads(l_)["count"] for l_ in ixl))
-    if ri.violated or ri.depth < len(ixl):
-        bad = ixl[min(ri.depth, len(ixl) - 1)]
-        ck.violation("index:out-of-table:" + "%s:%s" % (json.loads(bad)["base"], json.loads(bad)["n"]),
-                     "a table subscript noted by the code lies outside its table (base, size, smallest and largest subscript of the run): %s" % bad,
-                     {"line": bad})
+    if ixl:
+        ixf = os.path.join(wd, "ix_all.ndjson")
+        open(ixf, "w").write("\n".join(ixl) + "\n")
+        ri = vlib.tlc("Index", "Index.cfg", workers=1, env={"TRACE": ixf}, timeout=300)
+        if ri.error:
+            raise vlib.InfraError("Index: " + ri.error)
+        ck.tlc_stats(ri, "Index(noted table subscripts)")
+        ck.set("table_subscripts_noted", sum(json.loads(l_)["count"] for l_ in ixl))
+        if ri.violated or ri.depth < len(ixl):
+            bad = ixl[min(ri.depth, len(ixl) - 1)]
+            ck.violation("index:out-of-table:" + "%s:%s" % (json.loads(bad)["base"], json.loads(bad)["n"]),
+                         "a table subscript noted by the code lies outside its table (base, size, smallest and largest subscript of the run): %s" % bad,
+                         {"line": bad})
     # ---- 3. the logged table index of every first-lepton trial
     for i in range(nsh):
         tf = os.path.join(wd, "bb%d.ndjson" % i)
